@@ -88,7 +88,7 @@ def main(tier='quick'):
 
     def flip(x):
         if isinstance(x, dict):
-            if x.get('t') == 'bin':
+            if x.get('t') == 'bin' and x['l'] != x['r']:
                 x['l'], x['r'] = x['r'], x['l']
                 return True
             return any(flip(y) for y in x.values())
@@ -100,13 +100,14 @@ def main(tier='quick'):
     results.append(expect('OAL: operands of one operator swapped', v, not flipped, 'tree'))
 
     # OAL execution
-    progs = c04.exec_corpus('quick', 7, n=6)
+    progs = c04.exec_corpus('quick', 7, n=12)
     out, _ = oalcheck.unparse_stage(progs)
     items = [{'body': o['body'], 'toks': o['toks'], 'seed': 1, 'case': 'lower', 'layout': 'plain'} for o in out]
-    runs, tr, v, _ = c04.validate_exec(items)
+    runs, tr, v, st = c04.validate_exec(items)
     results.append(expect('OalExec: recorded executions', v, True))
     bad = copy.deepcopy(tr)
-    k = next((i for i, e in enumerate(bad[0]) if e['res'].startswith('i:')), None)
+    outside = set(step - 1 for t, step in st['ood'] if t == 0)     # programs the specification does not judge
+    k = next((i for i, e in enumerate(bad[0]) if e['res'].startswith('i:') and i not in outside), None)
     if k is not None:
         bad[0][k]['res'] = 'i:%d' % (int(bad[0][k]['res'][2:]) + 1)
         c = c04.consts()
